@@ -186,13 +186,15 @@ impl Imp {
         if let Some(f) = self.journal.as_mut() { use std::io::Write; let _ = writeln!(f, "{}", line); let _ = f.flush(); }
     }
     fn timed<T>(&mut self, f: impl FnOnce(&mut RitiContext) -> T) -> Option<T> {
-        let t = Instant::now();
+        // CPU time of this thread, not wall time: the time budget of C01 is about the work an event does; a busy machine (16 shards,
+        // other checks running) must not turn a descheduled thread into a "slow event" (calls that never return are the watchdog's)
+        let t = thread_cpu_s();
         let slot = SLOT.with(|s| *s);
         INFLIGHT[slot].store(now_ms(), Ordering::SeqCst);
         let r = catch_unwind(AssertUnwindSafe(|| f(&mut self.ctx)));
         INFLIGHT[slot].store(0, Ordering::SeqCst);
         self.note("ok");
-        let dt = t.elapsed().as_secs_f64();
+        let dt = thread_cpu_s() - t;
         if dt > self.slowest { self.slowest = dt; }
         match r { Ok(v) => Some(v), Err(_) => { self.poisoned = true; None } }
     }
@@ -222,6 +224,16 @@ impl Imp {
 }
 
 /// silence the default panic hook (panics are expected observations, not noise)
+#[repr(C)] struct Timespec { tv_sec: i64, tv_nsec: i64 }
+extern "C" { fn clock_gettime(clk: i32, ts: *mut Timespec) -> i32; }
+/// CLOCK_THREAD_CPUTIME_ID (Linux): CPU time consumed by the calling thread, seconds
+pub fn thread_cpu_s() -> f64 {
+    let mut ts = Timespec { tv_sec: 0, tv_nsec: 0 };
+    let rc = unsafe { clock_gettime(3, &mut ts) };
+    if rc != 0 { return 0.0; }
+    ts.tv_sec as f64 + ts.tv_nsec as f64 * 1e-9
+}
+
 pub fn quiet_panics() {
     // panics of the library under test are expected and caught; a panic of the harness itself (its source paths are relative:
     // `src/…`) is a defect of the machinery and must be visible
